@@ -40,6 +40,10 @@ ASSUMPTIONS = [
     "instance without clustering key); counters accumulate the difference between the instance's value and the value it was loaded with",
     "instances whose row was changed behind their back (other instance, queryset update, upsert over an existing row) are only reloaded or deleted: "
     "what a stale partial update should do is not documented",
+    "iff() / if_exists() are not combined with a write to a static column through an instance (save/update/blind update) nor used on instances without "
+    "clustering key: cqlengine restricts such statements to the partition key, where the condition is evaluated on the static row (known findings "
+    "C35.run/static-only-change/* and C35.state/*/static-only-change; their regression cases carry \"allow_static_lwt\": true, which lifts this limit); "
+    "conditional queryset updates of static columns are generated",
     "within one batch every operation addresses a different partition (equal timestamps make the outcome Cassandra's, not the mapper's); conditions "
     "and custom timestamps are not combined (Cassandra rejects that); ttl is sent but no time passes",
 ]
@@ -579,7 +583,10 @@ def interpret(case, ctx):
             k, c = h.k, h.c
             usable = [a for a in ("a", "b", "d", "st") if a in meta.attrs and not (meta.has_ck and c is None and a not in meta.static)]
             changed = changed_attrs(h)
-            lwt_allowed = batch is None
+            # conditions are not combined with writes to static columns on the instance path (see ASSUMPTIONS): CQL restricts such a
+            # statement to the partition, where IF EXISTS / IF .. mean the static row -- a documented limit of the mapper, kept as known findings
+            static_involved = meta.has_ck and (c is None or any(a in meta.static for a in changed) or any(a in meta.static for a in h.explicit))
+            lwt_allowed = batch is None and (not static_involved or case.get("allow_static_lwt", False))
             iff_kw, holds = condition(opt, k, c, usable) if lwt_allowed else ({}, True)
             if_exists = bool(opt["if_exists"]) and lwt_allowed and not iff_kw
             insert_path = method == "save" and not (h.persisted and not (set(["k", "c"]) & h.explicit_pk))
@@ -705,7 +712,9 @@ def interpret(case, ctx):
             touched = []
             if batch is None:
                 blame.clear()
-            blame["*"] = op if batch is None else "batch"
+                blame["*"] = op
+            else:
+                blame.setdefault("*", "batch")      # a more specific tag set by an earlier operation of the batch stays
             if op == "create":
                 k, c = step["k"], (step["c"] if meta.has_ck else None)
                 given = dict((a, v) for a, v in step["given"].items() if a in meta.attrs)
@@ -876,8 +885,9 @@ def interpret(case, ctx):
                     ctor[a] = _py(a, v)
                 opt = step["opt"]
                 usable = [a for a in ("a", "b", "d", "st") if a in meta.attrs]
-                iff_kw, holds = condition(opt, k, c, usable) if batch is None else ({}, True)
-                if_exists = bool(opt["if_exists"]) and batch is None and not iff_kw
+                blind_lwt = batch is None and (case.get("allow_static_lwt", False) or not (meta.has_ck and any(a in meta.static for a in kw_t)))
+                iff_kw, holds = condition(opt, k, c, usable) if blind_lwt else ({}, True)
+                if_exists = bool(opt["if_exists"]) and blind_lwt and not iff_kw
                 obj = D(**ctor)
                 obj.iff(**iff_kw)
                 obj.if_exists(if_exists)
